@@ -918,3 +918,38 @@ def replay_unification(viol):
     ]
     cases = [c for c in cases if c[1] is not None]
     return run_cases(UNI_PROGRAM, cases, {"model": viol}, "C10", "unification", batch=True)
+
+
+# ---------------------------------------------------------------- C14 (sort/2, keysort/2)
+def replay_sorting(viol):
+    """sort/2: strictly ascending in the standard order, duplicates removed; keysort/2: stable on keys.
+    Expected lists written from the definition."""
+    cases = [
+        ("sort([c,a,b,a,c], L), show(L)", "[a,b,c]"),
+        ("sort([3,1,2,1,3,2], L), show(L)", "[1,2,3]"),
+        ("sort([b,1,a,2.0,f(x),\"s\",Z,[]], L), length(L, N), show(N)", "8"),
+        ("sort([f(b),f(a),g(a),f(a,a),a,1,1.0], L), show(L)", "[1.0,1,a,f(a),f(b),g(a),f(a,a)]"),
+        ("sort([z,y,x,w,v,u,t,s,r,q,p,o,n,m,l,k,j,i,h,g,f,e,d,c,b,a], L), show(L)",
+         "[a,b,c,d,e,f,g,h,i,j,k,l,m,n,o,p,q,r,s,t,u,v,w,x,y,z]"),
+        ("sort([1,1,1,1], L), show(L)", "[1]"), ("sort([], L), show(L)", "[]"),
+        ("X is 2^60-2^60+2, sort([3,X,2,1], L), show(L)", "[1,2,3]"),
+        ("sort([f(X,1),f(X,0)], L), L = [f(_,A),f(_,B)], show(A-B)", "0-1"),
+        ("keysort([b-1,a-2,b-3,a-4,c-0,a-6], L), show(L)", "[a-2,a-4,a-6,b-1,b-3,c-0]"),
+        ("keysort([2-x,1-y,2-z,1-w,2-v,1-u,2-t,1-s,2-r,1-q,2-p,1-o,2-n,1-m,2-l,1-k,2-j,1-i,2-h,1-g,2-f,1-e,2-d,1-c,2-b,1-a], L), show(L)",
+         "[1-y,1-w,1-u,1-s,1-q,1-o,1-m,1-k,1-i,1-g,1-e,1-c,1-a,2-x,2-z,2-v,2-t,2-r,2-p,2-n,2-l,2-j,2-h,2-f,2-d,2-b]"),
+        ("keysort([k-b,k-a,k-b,k-a], L), show(L)", "[k-b,k-a,k-b,k-a]"),
+        ("keysort([f(2)-a,f(1)-b,1.0-c,z-d], L), show(L)", "[1.0-c,z-d,f(1)-b,f(2)-a]"),
+        ("keysort([], L), show(L)", "[]"),
+        # list literals whose leading one-character atoms are stored as a string (F12)
+        ("sort([c,1], L), show(L)", "[1,c]"), ("sort([a,1,1.0], L), show(L)", "[1.0,1,a]"),
+        ("sort([c,f(1)], L), show(L)", "[c,f(1)]"), ("sort([c,d|[1]], L), show(L)", "[1,c,d]"),
+        ("sort([b,a|\"dc\"], L), show(L)", "[a,b,c,d]"),
+        ("catch(sort([c,d|foo], L), error(E, _), true), show(E)", "type_error(list,[c,d|foo])"),
+        ("catch(sort([c,d|_], L), error(E, _), true), show(E)", "instantiation_error"),
+        ("keysort([a-1], L), show(L)", "[a-1]"),
+        ("numlist(1, 60, Ns), findall(K-N, (member(N, Ns), K is N mod 3), Ps), keysort(Ps, L), "
+         "findall(N, member(0-N, L), Zs), ( msort_check(Zs) -> show(stable) ; show(Zs) )", "stable"),
+    ]
+    prog = (":- use_module(library(lists)).\n:- use_module(library(between)).\nshow(X) :- write(X), nl.\n"
+            "msort_check([]).\nmsort_check([_]).\nmsort_check([A,B|T]) :- A < B, msort_check([B|T]).\n")
+    return run_cases(prog, cases, {"model": viol}, "C14", "sorting", batch=True)
